@@ -52,9 +52,21 @@ VARIANTS = {
 def build(cmd, variant):
     """Builds ./cmd/<cmd> in the given variant from /repo's current working tree."""
     flags, tags = VARIANTS[variant]
-    out = os.path.join(BUILD, f"{cmd}_{variant}")
+    bdir = BUILD
+    modflag = []
+    repo = os.environ.get("VERIF_REPO")
+    if repo and os.path.realpath(repo) != "/repo":
+        # build against another checkout of the repository (background sweeps on a snapshot, scratch worktrees)
+        tag = hashlib.sha1(os.path.realpath(repo).encode()).hexdigest()[:8]
+        bdir = os.path.join(BUILD, "alt_" + tag)
+        os.makedirs(bdir, exist_ok=True)
+        mod = open(os.path.join(HARNESS, "go.mod")).read().replace("=> /repo", "=> " + os.path.realpath(repo))
+        open(os.path.join(bdir, "alt.mod"), "w").write(mod)
+        shutil.copy(os.path.join(HARNESS, "go.sum"), os.path.join(bdir, "alt.sum"))
+        modflag = ["-modfile=" + os.path.join(bdir, "alt.mod")]
+    out = os.path.join(bdir, f"{cmd}_{variant}")
     os.makedirs(BUILD, exist_ok=True)
-    args = [GO, "build", "-o", out] + flags
+    args = [GO, "build"] + modflag + ["-o", out] + flags
     if tags:
         args += ["-tags", tags]
     args += [f"./cmd/{cmd}"]
